@@ -472,6 +472,14 @@ def check_generic(prop, tier, cfgs, n_quick, n_thorough, sigfun, stages, level="
                 sp = Program(len(progs), ss, root, label)
                 sp.port = None
                 progs.append(sp)
+        if prop in ("C01", "C07"):
+            from .wsdl_driver import free_port
+            ss = gen_mini.derived_foreign_facets_program()
+            port = free_port()
+            ss.wsdl.location = f"http://127.0.0.1:{port}/derived"
+            dp = Program(len(progs), ss, root, "derived-foreign-facets")
+            dp.port = port
+            progs.append(dp)
         if prop in ("C01", "C02", "C09", "C10"):
             for label, ss in gen_mini.schema_prefix_abbreviation_family():
                 ap = Program(len(progs), ss, root, label)
